@@ -544,6 +544,19 @@ def c14_jobs(tier):
         j = {"pkgdir": "align/pals/filter", "func": "VerifC14_Filter", "sched": "det", "fsmodel": True,
              "params": {"k": k, "n": n, "e": e, "offset": off, "tlen": tl, "qlen": ql, "self": self}, "timeout_s": 900 if tier == "quick" else 3000}
         jobs.append(j)
+    # template instances: sequences of 12-30 letters, so that the tube-recycling tick fires several times and the
+    # circular tube list wraps; target = fixed template prefix (concrete, so the k-mer index is concrete), query =
+    # template from `shift` on with the positions of the bit mask `qsym` symbolic:
+    # (k, n, e, offset, |T|, |Q|, shift, tsym, qsym)
+    tpl = [(4, 9, 1, 4, 24, 20, 3, 4096, 260), (4, 8, 0, 2, 24, 26, 3, 0, 33825), (4, 9, 1, 3, 28, 30, 0, 0, 1081344), (3, 7, 1, 2, 20, 24, 1, 0, 4228),
+           (4, 12, 2, 4, 30, 28, 1, 0, 139264), (3, 6, 1, 3, 18, 30, 0, 0, 536870976), (4, 8, 0, 1, 16, 20, 2, 0, 1057), (2, 5, 1, 2, 12, 20, 0, 0, 66)]
+    if tier != "quick":
+        tpl += [(4, 8, 0, 4, 24, 20, 3, 0, 2080), (4, 9, 1, 5, 20, 24, 0, 0, 65), (3, 7, 1, 3, 20, 18, 1, 0, 1028), (4, 10, 1, 6, 28, 22, 4, 0, 33),
+                (3, 6, 1, 2, 16, 14, 2, 72, 1040), (4, 8, 1, 2, 26, 28, 2, 0, 2236963), (3, 5, 0, 1, 14, 26, 0, 0, 33686018)]
+    for (k, n, e, off, tl, ql, shift, tsym, qsym) in tpl:
+        jobs.append({"pkgdir": "align/pals/filter", "func": "VerifC14_Template", "sched": "det", "fsmodel": True,
+                     "params": {"k": k, "n": n, "e": e, "offset": off, "tlen": tl, "qlen": ql, "shift": shift, "tsym": tsym, "qsym": qsym},
+                     "timeout_s": 900 if tier == "quick" else 3000})
     return jobs
 
 
@@ -566,6 +579,15 @@ def c15_jobs(tier):
     for (t, dl, ins, pos, mask, ml, mi, k) in gapped:
         jobs.append({"pkgdir": "align/pals/dp", "func": "VerifC15_Gapped", "sched": "det", "floatsplit": True, "math": True,
                      "params": {"tlen": t, "del": dl, "ins": ins, "delpos": pos, "sym": mask, "minlen": ml, "minid": mi, "k": k},
+                     "timeout_s": 900 if tier == "quick" else 3000})
+    # two trapezoids whose hits share a start point (common block X, substitutions, common block Y, non-matching flanks):
+    # (|X|, |Y|, substitutions, flank, trapezoid order, symbolic-position mask of the query, minimum hit length, minimum identity %, k)
+    two = [(10, 3, 1, 3, 0, 16, 4, 70, 2), (10, 3, 1, 3, 1, 16, 4, 70, 2), (12, 4, 2, 3, 1, 64, 5, 70, 2), (10, 2, 1, 3, 1, 32, 4, 70, 2)]
+    if tier != "quick":
+        two += [(12, 3, 1, 3, 1, 4096, 4, 70, 2), (14, 4, 1, 4, 0, 1024, 6, 75, 3), (14, 4, 1, 4, 1, 262144, 6, 75, 3)]
+    for (xl, yl, subs, fl, order, mask, ml, mi, k) in two:
+        jobs.append({"pkgdir": "align/pals/dp", "func": "VerifC15_TwoTraps", "sched": "det", "floatsplit": True, "math": True,
+                     "params": {"xlen": xl, "ylen": yl, "subs": subs, "flank": fl, "order": order, "sym": mask, "minlen": ml, "minid": mi, "k": k},
                      "timeout_s": 900 if tier == "quick" else 3000})
     # whole pipeline: the query carries a copy of target[tpos:tpos+plen] at qpos (fewer free letters; the free-query 4x4 instance needs > 900 s)
     pipes = [(4, 4, 2, 3, 0, 1, 3, 60, 3, 1, 0)] if tier == "quick" else [(4, 4, 2, 3, 0, 1, 3, 60, 3, 1, 0), (5, 5, 2, 4, 0, 2, 4, 75, 4, 0, 1), (4, 4, 2, 3, 0, 1, 3, 60, 0, 0, 0)]
